@@ -27,6 +27,7 @@ type c17Scenario struct {
 	HeadHex    string `json:"head_hex"`
 	AroundHex  string `json:"around_boundary_hex,omitempty"`
 	Reads      []int  `json:"read_lengths,omitempty"`
+	Block      int    `json:"block_size,omitempty"`
 	Lines      int    `json:"program_lines,omitempty"`
 	Got        string `json:"got,omitempty"`
 	Want       string `json:"want,omitempty"`
@@ -34,6 +35,10 @@ type c17Scenario struct {
 
 var c17Chars = []string{"a", "é", "中", "😀", "�", "\n", "𠀀", "ß", "\uFEFF", "\U0010FFFF", "\u07FF", "\uFFFF", "\U00010000"}
 var c17Counts = []int{0, 1, 2, 3, 5, 40, 1023, 1024, 1364, 1365, 1366, 2047, 2048, 2730, 2731, 4093, 4094, 4095, 4096, 4097, 8191, 8192, 8193, 12287, 12288, 13000, 16383, 16384, 16385}
+
+// caller-chosen block sizes for FileStream.Read(n): shorter than a character, around the
+// default block, larger than most files
+var c17Blocks = []int{1, 2, 3, 4, 5, 7, 8, 13, 64, 1000, 4095, 4096, 4097, 8192, 65536}
 
 type corruption struct {
 	name string
@@ -124,7 +129,11 @@ func runC17(t *zsim.Tape, cfg *hlib.Config) *hlib.Outcome {
 	if t.Draw(2) == 1 {
 		sc.Profile = "stream"
 	}
-	sc.Target = []string{"FileStream.ReadAll", "FileStream.ReadAll", "LoadFile.Execute", "ByteStream.ReadAll"}[t.Draw(4)]
+	sc.Target = []string{"FileStream.ReadAll", "FileStream.ReadAll", "LoadFile.Execute", "ByteStream.ReadAll", "FileStream.Read(n)"}[t.Draw(5)]
+	if sc.Target == "FileStream.Read(n)" {
+		// the public block-wise API with a caller-chosen block size ("all read block sizes")
+		sc.Block = c17Blocks[t.Draw(len(c17Blocks))]
+	}
 	var data []byte
 	if sc.Target == "LoadFile.Execute" {
 		src, n := genProgram(t)
@@ -188,6 +197,9 @@ func runC17(t *zsim.Tape, cfg *hlib.Config) *hlib.Outcome {
 			sc.CorruptAt = pos
 		}
 	}
+	if sc.Block > 0 && sc.Block < 64 && len(data) > 16384 {
+		sc.Block = 4095 // byte-sized blocks over a large file only cost time
+	}
 	sc.Size = len(data)
 	sc.HeadHex = hexAround(data, 0, 12)
 	if len(data) > 4096 {
@@ -216,7 +228,7 @@ func runC17(t *zsim.Tape, cfg *hlib.Config) *hlib.Outcome {
 	}
 	w.Enter()
 	defer w.Leave()
-	out.Keys = []string{fmt.Sprintf("%s|%s|%s|%s|eio=%v|sz%d", sc.Profile, sc.Target, sc.Class, sc.Corruption, eioPlanned, len(data)%4096%7)}
+	out.Keys = []string{fmt.Sprintf("%s|%s|%s|%s|eio=%v|sz%d|b%d", sc.Profile, sc.Target, sc.Class, sc.Corruption, eioPlanned, len(data)%4096%7, sc.Block)}
 
 	var gotRunes []rune
 	var gotErr error
@@ -236,6 +248,35 @@ func runC17(t *zsim.Tape, cfg *hlib.Config) *hlib.Outcome {
 				return
 			}
 			gotRunes, gotErr = fs.ReadAll()
+		}()
+	case "FileStream.Read(n)":
+		func() {
+			defer func() {
+				if p := recover(); p != nil {
+					panicked = fmt.Sprint(p)
+				}
+			}()
+			fs, err := zio.NewFileStream("/src/main.zn")
+			if err != nil {
+				gotErr = err
+				return
+			}
+			// every call consumes at least one byte until end of input (the simulated disk
+			// never returns an empty short read), so size+8 calls see everything; stop early
+			// once the whole text and three further empty blocks have been seen (valid input only:
+			// on invalid input the loop runs until the error or the call budget)
+			empties := 0
+			for i := 0; i < len(data)+8 && empties < 3; i++ {
+				rs, err := fs.Read(sc.Block)
+				if err != nil {
+					gotErr = err
+					return
+				}
+				gotRunes = append(gotRunes, rs...)
+				if valid && len(rs) == 0 && len(gotRunes) >= len(want) {
+					empties++
+				}
+			}
 		}()
 	case "ByteStream.ReadAll":
 		func() {
@@ -308,6 +349,9 @@ func runC17(t *zsim.Tape, cfg *hlib.Config) *hlib.Outcome {
 	}
 	// stream decoders
 	name := strings.Split(sc.Target, ".")[0]
+	if sc.Target == "FileStream.Read(n)" {
+		name = "FileStream.Read(n)"
+	}
 	if !valid {
 		if gotErr == nil {
 			sc.Got = fmt.Sprintf("%d runes, no error", len(gotRunes))
